@@ -70,6 +70,15 @@ def tyOfName (s : String) : Option Lex.Ty :=
 
 def c09 (payload : String) : String :=
   match Sexp.parse payload with
+  | some (.list [.atom "lit32", .atom ty, .atom neg, .str sp]) =>
+    -- the wasm32 target: lint and constant only (nothing is run there)
+    match tyOfName ty with
+    | none => "bad-request"
+    | some t =>
+      match Lit.outcomeOn true (2 ^ 64) t (neg == "1") sp with
+      | .error c => "error " ++ toString c
+      | .typeMismatch => "mismatch"
+      | .value p l => "value " ++ toString p ++ " lint=" ++ (if l then "1" else "0")
   | some (.list [.atom "lit", .atom ty, .atom neg, .str sp]) =>
     match tyOfName ty with
     | none => "bad-request"
